@@ -10,7 +10,7 @@
    buf_size_bytes argument.  Preconditions of the C contract are boolean guards:
      copy_pre  = both buffers are large enough for the addressed ranges, allocations < 2^61 bytes
      buf_pre   = size <= allocation, allocation < 2^61 bytes, offset is a size_t, bytes < 256. *)
-From Verif Require Import Bits CPrims CPrimsThm F16 F16Thm F16ArithThm CppPrims CppPrimsThm CppPrimsMoreThm PyPrims PyPrimsThm PyPrimsMoreThm PyPrimsStdThm.
+From Verif Require Import Bits CPrims CPrimsThm F16 F16Thm F16ArithThm CppPrims CppPrimsThm CppPrimsMoreThm PyPrims PyPrimsThm PyPrimsMoreThm PyPrimsStdThm PyPrimsBitsThm PyPrimsForkThm.
 Open Scope N_scope.
 
 (* ---------------------------------------------------------------------------------------------
@@ -469,3 +469,52 @@ Theorem C14_py_fetch_aligned_uxx_ixx_spec :
       fetch_aligned_ixx w d = Some (sign_extend w u, d').
 Proof. exact fetch_aligned_ixx_spec. Qed.
 Print Assumptions C14_py_fetch_aligned_uxx_ixx_spec.
+
+(* arrays of bits (numpy.packbits / unpackbits, bitorder="little"): bit k of the array goes to / comes from cursor + k *)
+Theorem C14_py_add_array_of_bits_appends :
+  forall (s : ser) (x : list bool),
+    Inv s -> bytes_ok (s_buf s) ->
+    (s_off s / 8 + (N.of_nat (length x) + 7) / 8 < blen (s_buf s) ->
+     exists s', add_unaligned_array_of_bits s x = Some s' /\ appended s s' (N.of_nat (length x)) (nthb x)) /\
+    (s_off s mod 8 = 0 -> s_off s / 8 + (N.of_nat (length x) + 7) / 8 <= blen (s_buf s) ->
+     exists s', add_aligned_array_of_bits s x = Some s' /\ appended s s' (N.of_nat (length x)) (nthb x)).
+Proof.
+  intros s x HI Hok. split; [exact (add_unaligned_array_of_bits_appends s x HI Hok)|exact (add_aligned_array_of_bits_appends s x HI Hok)].
+Qed.
+Print Assumptions C14_py_add_array_of_bits_appends.
+
+Theorem C14_py_fetch_unaligned_array_of_bits_spec :
+  forall (d : des) (count : N),
+    bytes_ok (d_buf d) ->
+    exists out d', fetch_unaligned_array_of_bits d count = Some (out, d') /\ d_buf d' = d_buf d /\ d_off d' = d_off d + count /\
+      N.of_nat (length out) = count /\ forall k, nthb out k = (k <? count) && bit (d_buf d) (d_off d + k).
+Proof. exact fetch_unaligned_array_of_bits_spec. Qed.
+Print Assumptions C14_py_fetch_unaligned_array_of_bits_spec.
+
+(* fork_bytes: the forked (de)serializer works on a window of the same bytes *)
+Theorem C14_py_ser_fork_bytes_spec :
+  forall (s : ser) (n : N),
+    Inv s -> s_off s mod 8 = 0 ->
+    if blen (s_buf s) <? s_off s / 8 + n + 1 then ser_fork_bytes s n = None
+    else exists f, ser_fork_bytes s n = Some f /\ s_off f = 0 /\ blen (s_buf f) = n + 1 /\ Inv f /\
+           forall p, bit (s_buf f) p = (p <? 8 * (n + 1)) && bit (s_buf s) (s_off s + p).
+Proof. exact ser_fork_bytes_spec. Qed.
+Print Assumptions C14_py_ser_fork_bytes_spec.
+
+Theorem C14_py_ser_join_spec :
+  forall s f : ser,
+    s_off s mod 8 = 0 -> s_off s / 8 + blen (s_buf f) <= blen (s_buf s) ->
+    s_off (ser_join s f) = s_off s /\ length (s_buf (ser_join s f)) = length (s_buf s) /\
+    forall p, bit (s_buf (ser_join s f)) p =
+              if (s_off s <=? p) && (p <? s_off s + 8 * blen (s_buf f)) then bit (s_buf f) (p - s_off s) else bit (s_buf s) p.
+Proof. exact ser_join_spec. Qed.
+Print Assumptions C14_py_ser_join_spec.
+
+Theorem C14_py_des_fork_bytes_spec :
+  forall (d : des) (n : N),
+    d_off d mod 8 = 0 ->
+    if blen (d_buf d) - d_off d / 8 <? n then des_fork_bytes d n = None
+    else exists f, des_fork_bytes d n = Some f /\ d_off f = 0 /\ blen (d_buf f) = n /\
+           forall p, bit (d_buf f) p = (p <? 8 * n) && bit (d_buf d) (d_off d + p).
+Proof. exact des_fork_bytes_spec. Qed.
+Print Assumptions C14_py_des_fork_bytes_spec.
